@@ -664,6 +664,11 @@ class NetworkXPropertyGraph(ABCPropertyGraph, NetworkXMixin):
         # merge the nodes in situ
         nx.contracted_nodes(self.storage.get_graph(self.graph_id), real_node, real_other_node, copy=False)
 
+        # relationships present on both nodes are kept once with the properties of the caller's
+        # edge; drop the 'contraction' bookkeeping networkx leaves on them (a dict, not serializable)
+        for _, _, edge_props in self.storage.get_graph(self.graph_id).edges(real_node, data=True):
+            edge_props.pop('contraction', None)
+
         # deal with properties
         # remove all properties, including 'contracted' new property
         self.storage.get_graph(self.graph_id).nodes[real_node].clear()
